@@ -1,5 +1,5 @@
 (* Property C14 -- statements only; every proof is `exact <lemma from Proofs/>`. *)
-From Erbium Require Import Lib.Base Model.DnsName Model.DnsCodec Proofs.DnsName Proofs.DnsRecord.
+From Erbium Require Import Lib.Base Model.DnsName Model.DnsCodec Proofs.DnsName Proofs.DnsRecord Proofs.DnsPacket Proofs.DnsWf Proofs.DnsRoundtrip Model.DnsStrict Proofs.DnsStrictProofs.
 
 (* Names, with the dictionary (suffix tree) invariant [tree_ok]: writing a
    well-formed name at the end of a buffer whose dictionary is valid never
@@ -43,19 +43,17 @@ Print Assumptions C14_names_roundtrip.
    only if every compression pointer on its path targets an offset strictly
    below the pointer's own offset and below 0x4000 (Model/DnsName.v
    strict_name).  It accepts every name the encoder writes.
-   Full statement wanted (packet level, not yet proved):
-     forall m, wf_pkt m -> encode m = Ok b ->
-       Forall (fun '(at, target) => target < at /\ target < 0x4000) (pointers b). *)
-Theorem C14_pointers_backwards_and_small_partial : forall buf kids n,
+   The packet-level statement is C14_pointers_backwards_and_small below. *)
+Theorem C14_name_pointers_backwards_and_small : forall buf kids n,
   0 < lenN buf -> Forall (tree_ok buf []) kids -> wf_name n = true ->
   exists b kids', push_name (lenN buf) kids n = Ok (b, kids') /\
     strict_name NAME_FUEL (buf ++ b) (dropN (lenN buf) (buf ++ b)) (lenN buf) 0 = Some (n, lenN buf + lenN b).
 Proof. exact name_pointers_strict. Qed.
-Check C14_pointers_backwards_and_small_partial : forall buf kids n,
+Check C14_name_pointers_backwards_and_small : forall buf kids n,
   0 < lenN buf -> Forall (tree_ok buf []) kids -> wf_name n = true ->
   exists b kids', push_name (lenN buf) kids n = Ok (b, kids') /\
     strict_name NAME_FUEL (buf ++ b) (dropN (lenN buf) (buf ++ b)) (lenN buf) 0 = Some (n, lenN buf + lenN b).
-Print Assumptions C14_pointers_backwards_and_small_partial.
+Print Assumptions C14_name_pointers_backwards_and_small.
 
 (* The decoder reads exactly what the "meaning of the octets" relation says,
    as long as the hop count stays within LIMIT and the name within 255 octets. *)
@@ -68,62 +66,90 @@ Check C14_decoder_complete : forall buf off h ls nxt,
   get_domain buf off = Ok (ls, nxt).
 Print Assumptions C14_decoder_complete.
 
-(* Names returned by the decoder are names the encoder accepts: labels of
-   1..63 octets, at most 255 octets in all (hence at most 127 labels).
-   This is the names part of C14_decoded_is_wf; the full statement
-     forall b m, decode b = Ok m -> wf_pkt m
-   is not yet proved (it needs the same for every RDATA kind and the OPT folding). *)
-Theorem C14_decoded_is_wf_partial : forall buf off n nxt,
+(* Everything the decoder returns is well-formed, i.e. in the domain on which the
+   encoder is specified and C14_roundtrip holds: names of 1..63-octet labels and
+   at most 255 octets, field widths, record data kind matching the type, no OPT
+   left in the additional section, EDNS fields consistent (version 0; without
+   OPT: rcode < 16, size 512, DO clear), counts below 65536.  ([bytes_ok b]: the
+   elements of b are octets.) *)
+Theorem C14_decoded_is_wf : forall b m, bytes_ok b = true -> decode b = Ok m -> wf_pkt m = true.
+Proof. exact decode_wf. Qed.
+Check C14_decoded_is_wf : forall b m, bytes_ok b = true -> decode b = Ok m -> wf_pkt m = true.
+Print Assumptions C14_decoded_is_wf.
+
+(* The first half of the property text: any message the decoder accepts is
+   re-encoded (when the re-encoding drops nothing, i.e. fits the limit) into
+   octets that decode to the identical message.  With the decoder's former
+   limits (10 hops, no bound on name length) this is false: F18, F45. *)
+Theorem C14_decode_encode_decode : forall b m size e,
+  bytes_ok b = true -> decode b = Ok m -> encode_sized_t m size = Ok (e, false) -> decode e = Ok m.
+Proof. exact decode_encode_decode. Qed.
+Check C14_decode_encode_decode : forall b m size e,
+  bytes_ok b = true -> decode b = Ok m -> encode_sized_t m size = Ok (e, false) -> decode e = Ok m.
+Print Assumptions C14_decode_encode_decode.
+
+(* names level of the same two statements (kept: they are what the packet level rests on) *)
+Theorem C14_decoded_name_is_wf : forall buf off n nxt,
   bytes_ok buf = true -> get_domain buf off = Ok (n, nxt) -> wf_name n = true.
 Proof. exact get_domain_wf. Qed.
-Check C14_decoded_is_wf_partial : forall buf off n nxt,
+Check C14_decoded_name_is_wf : forall buf off n nxt,
   bytes_ok buf = true -> get_domain buf off = Ok (n, nxt) -> wf_name n = true.
-Print Assumptions C14_decoded_is_wf_partial.
+Print Assumptions C14_decoded_name_is_wf.
 
-(* decode . encode . decode = decode on names: a name the decoder returned from
-   any octets whatsoever is written by the encoder -- anywhere later, against
-   any valid dictionary -- such that the decoder returns it again.  (With the
-   decoder's former limits, 10 hops and no length bound, this is false: F18, F45.)
-   Full statement wanted (packet level, not yet proved):
-     forall m, wf_pkt m -> encode m = Ok b -> lenN b <= 65535 -> decode b = Ok m. *)
-Theorem C14_roundtrip_partial : forall b off n nxt buf kids,
-  bytes_ok b = true -> get_domain b off = Ok (n, nxt) ->
-  0 < lenN buf -> Forall (tree_ok buf []) kids ->
-  exists e kids', push_name (lenN buf) kids n = Ok (e, kids') /\
-    Forall (tree_ok (buf ++ e) []) kids' /\
-    get_domain (buf ++ e) (lenN buf) = Ok (n, lenN buf + lenN e).
-Proof. exact decoded_name_reencodes. Qed.
-Check C14_roundtrip_partial : forall b off n nxt buf kids,
-  bytes_ok b = true -> get_domain b off = Ok (n, nxt) ->
-  0 < lenN buf -> Forall (tree_ok buf []) kids ->
-  exists e kids', push_name (lenN buf) kids n = Ok (e, kids') /\
-    Forall (tree_ok (buf ++ e) []) kids' /\
-    get_domain (buf ++ e) (lenN buf) = Ok (n, lenN buf + lenN e).
-Print Assumptions C14_roundtrip_partial.
+(* Record level, byte exact, all eleven kinds of record data: owner name and
+   every name inside the data are compressed against the dictionary (data names
+   at their final offsets, after type/class/ttl/rdlength); the encoder does not
+   panic; get_rr on the final buffer -- whatever follows the record -- returns
+   the record and consumes exactly its octets; the dictionary stays valid. *)
+Theorem C14_rr_roundtrip : forall buf kids r,
+  0 < lenN buf -> Forall (tree_ok buf []) kids -> wf_rr r = true ->
+  exists b kids', push_rr (lenN buf) kids r = Ok (b, kids') /\
+    Forall (tree_ok (buf ++ b) []) kids' /\ 0 < lenN b /\
+    forall post, get_rr (buf ++ b ++ post) (b ++ post, lenN buf) = Ok (r, (post, lenN buf + lenN b)).
+Proof. exact rr_written. Qed.
+Check C14_rr_roundtrip : forall buf kids r,
+  0 < lenN buf -> Forall (tree_ok buf []) kids -> wf_rr r = true ->
+  exists b kids', push_rr (lenN buf) kids r = Ok (b, kids') /\
+    Forall (tree_ok (buf ++ b) []) kids' /\ 0 < lenN b /\
+    forall post, get_rr (buf ++ b ++ post) (b ++ post, lenN buf) = Ok (r, (post, lenN buf + lenN b)).
+Print Assumptions C14_rr_roundtrip.
 
-(* Record level, byte exact, for the kinds whose data is one name (CNAME, NS,
-   PTR): owner name and data name are both compressed against the dictionary
-   (the data name at its final offset, after type/class/ttl/rdlength); get_rr
-   on the final buffer returns the record and consumes exactly its octets; the
-   dictionary stays valid.  The other eight kinds follow the same pattern
-   (get_name_written + get_u16_be16/get_u32_be32) and are not yet done. *)
-Theorem C14_rr_roundtrip_partial : forall buf kids r d,
-  0 < lenN buf -> Forall (tree_ok buf []) kids ->
-  wf_name (r_name r) = true -> wf_name d = true ->
-  r_class r < 65536 -> r_ttl r < 4294967296 ->
-  (r_type r = T_CNAME /\ r_data r = RCName d \/ r_type r = T_NS /\ r_data r = RNs d \/
-   r_type r = T_PTR /\ r_data r = RPtr d) ->
-  exists b kids', push_rr (lenN buf) kids r = Ok (b, kids') /\
-    Forall (tree_ok (buf ++ b) []) kids' /\
-    get_rr (buf ++ b) (b, lenN buf) = Ok (r, ([], lenN buf + lenN b)).
-Proof. exact rr_one_name_roundtrip. Qed.
-Check C14_rr_roundtrip_partial : forall buf kids r d,
-  0 < lenN buf -> Forall (tree_ok buf []) kids ->
-  wf_name (r_name r) = true -> wf_name d = true ->
-  r_class r < 65536 -> r_ttl r < 4294967296 ->
-  (r_type r = T_CNAME /\ r_data r = RCName d \/ r_type r = T_NS /\ r_data r = RNs d \/
-   r_type r = T_PTR /\ r_data r = RPtr d) ->
-  exists b kids', push_rr (lenN buf) kids r = Ok (b, kids') /\
-    Forall (tree_ok (buf ++ b) []) kids' /\
-    get_rr (buf ++ b) (b, lenN buf) = Ok (r, ([], lenN buf + lenN b)).
-Print Assumptions C14_rr_roundtrip_partial.
+(* The packet level, at full strength: for every well-formed message m and every
+   size limit, if the serialiser produced e without dropping a record (second
+   component false; serialise() is size = 65536, and with nothing dropped the
+   result does not depend on the limit -- C04_tcp_complete), the decoder returns
+   exactly m: header bits, opcode, 12-bit rcode, EDNS version/size/DO/options
+   (OPT folding), question and every record of every section with all eleven
+   kinds of record data, names compressed against everything written before.
+   No length hypothesis is needed: pointers only ever target offsets < 0x4000. *)
+Theorem C14_roundtrip : forall m size e,
+  wf_pkt m = true -> encode_sized_t m size = Ok (e, false) -> decode e = Ok m.
+Proof. exact decode_encode. Qed.
+Check C14_roundtrip : forall m size e,
+  wf_pkt m = true -> encode_sized_t m size = Ok (e, false) -> decode e = Ok m.
+Print Assumptions C14_roundtrip.
+
+(* the hypotheses are satisfiable *)
+Example C14_roundtrip_example :
+  let r := {| r_name := [[119]; [97]]; r_class := 1; r_type := 15; r_ttl := 60; r_data := RMx 10 [[109]; [97]] |} in
+  let m := {| qid := 7; rd := true; tc := false; aa := false; qr := true; opcode := 0; cd := false; ad := true;
+              ra := true; rcode := 3843; bufsize := 1232; edns_ver := Some 0; edns_do := true;
+              qname := [[97]]; qtype := 15; qclass := 1; answer := [r]; nameserver := [r]; additional := [];
+              edns := Some [(10, [1;2;3;4;5;6;7;8])] |} in
+  wf_pkt m = true /\ match encode_sized_t m 65536 with Ok (_, t) => t = false | _ => False end.
+Proof. vm_compute. auto. Qed.
+
+(* Pointers, packet level: every encoding of a well-formed message -- complete or
+   truncated, of any size -- is accepted by the strict decoder of the
+   specification side.  That decoder expands the question name, every owner name
+   and every name inside record data, and gives up on any compression pointer
+   whose target is not strictly below the pointer's own offset and below 0x4000
+   (Model/DnsName.v strict_name, the only place where it follows a pointer); so
+   every pointer in the message points backwards to an offset below 16384.  Which
+   message it returns is stated in C04_sized_wellformed / C14_roundtrip. *)
+Theorem C14_pointers_backwards_and_small : forall m size e t,
+  wf_pkt m = true -> encode_sized_t m size = Ok (e, t) -> exists m', strict_decode e = Some m'.
+Proof. exact encoding_strictly_decodable. Qed.
+Check C14_pointers_backwards_and_small : forall m size e t,
+  wf_pkt m = true -> encode_sized_t m size = Ok (e, t) -> exists m', strict_decode e = Some m'.
+Print Assumptions C14_pointers_backwards_and_small.
